@@ -664,6 +664,13 @@ func finish(spec *chain.PropSpec, tier string, base int64, recs []runRec, start 
 		"real_components":     "coreV2/** (minter.Blockchain, state, transaction, appdb, events), formula, rlp, crypto, tree, IAVL v0.17.3, tendermint abci/types + types.ValidatorSet",
 		"stubbed_components":  "Tendermint consensus/mempool/p2p (tmsim), goleveldb (simdb), gRPC transport, statistics",
 	}
+	if spec.ID == "C25" {
+		cov["real_components"] = cov["real_components"].(string) + ", api/v2/service handlers (called directly, no gRPC transport)"
+		cov["stubbed_components"] = cov["stubbed_components"].(string) + "; goroutine scheduling between the executor and API requests is decided by the simulator (tools/simrt cooperative scheduler: one task at a time, switches at lock points)"
+	}
+	if spec.ID == "C08" {
+		cov["stubbed_components"] = cov["stubbed_components"].(string) + "; Go's randomised map iteration order is replaced by a seeded order at every range-over-map of coreV2/** and api/v2/service"
+	}
 	if len(samples) == 0 {
 		cov["samples"] = []interface{}{"no run completed"}
 	}
